@@ -59,6 +59,66 @@ def r_recursion_ledger(r, prog):
     r.floor(10, 'SCCs')
 
 
+def r_base_closure_memoised(r, prog):
+    """The transitive bases of an interface are computed by a recursion over the base lists. On a dense hierarchy (every interface listing all
+    earlier ones) a plain recursion expands an interface once per inheritance *path* - exponentially many. The recursion must be memoised:
+    in every function of the recursive component, the recursive call is reachable only off the hit edge of a lookup in a table, the result is
+    stored in that table afterwards, and the table does not outlive one top-level request (it is created by the non-recursive entry)."""
+    IF = 'slicec::grammar::elements::interface::Interface::'
+    cg = prog.callgraph()
+    mod = [f for f in prog.fns.values() if f.path.startswith(IF) and '{closure' not in f.path]
+    # functions of Interface that (transitively, inside Interface) call themselves and walk the base list
+    def reach_self(f):
+        seen, todo = set(), [f.path]
+        while todo:
+            x = todo.pop()
+            for y in cg.get(x, ()):
+                if y.startswith(IF) and y not in seen:
+                    seen.add(y)
+                    todo.append(y)
+        return f.path in seen
+    rec = [f for f in mod if reach_self(f) and any(c.name() == 'base_interfaces' for g in [f] + [x for x in prog.fns.values() if x.path.startswith(f.path + '::{closure')] for c in g.calls())]
+    if not rec:
+        raise AnchorMissing('the recursive computation of the base closure in Interface')
+    for f in rec:
+        fam = [f] + [x for x in prog.fns.values() if x.path.startswith(f.path + '::{closure')]
+        selfcalls = [(g, c) for g in fam for c in g.calls() if (c.resolved or c.callee or '') in {x.path for x in rec} and not g.blocks[c.bb].get('cleanup')]
+        looks = branches_on_call(f, lambda c: c.name() in ('get', 'contains_key', 'contains', 'get_mut', 'entry'))
+        looks += [dict(b, true=b['some'], false=b['none']) for b in _option_branches(f, ('get', 'get_mut'))]
+        stores = [c for c in f.calls() if c.name() in ('insert',) and not f.blocks[c.bb].get('cleanup')]
+        ok = False
+        for b in looks:
+            tbl = vexpr(f, b['call'].args[0])
+            if not re.match(r'^arg\d', tbl):
+                continue
+            hit = b['true']
+            # recursion (directly in f, or the adapter call that runs the closure doing it) is not reachable from the hit edge
+            in_closure = any(g is not f for g, c in selfcalls)
+            rec_blocks = {c.bb for g, c in selfcalls if g is f} | ({c.bb for c in f.calls() if any(vexpr(f, a).startswith('closure(') for a in c.args)} if in_closure else set())
+            miss = f.reachable(b['false'], blocked=[b['bb']])
+            if rec_blocks and not (f.reachable(hit, blocked=[b['bb']]) & rec_blocks) and rec_blocks <= miss \
+                    and any(vexpr(f, s.args[0]) == tbl and s.bb in miss and s.bb not in f.reachable(hit, blocked=[b['bb']]) for s in stores):
+                ok = True
+        if ok:
+            r.ok('%s: the recursion is reached only when the table has no entry for this interface, and the result is stored in it' % f.name)
+        else:
+            r.finding('base-closure-not-memoised:%s' % f.name, f.span,
+                      '%s recurses into the bases of every base without consulting a table of interfaces already expanded: an interface reachable through k inheritance paths is expanded k times (exponential on dense hierarchies)' % f.name)
+    r.floor(1)
+
+
+def _option_branches(f, names):
+    """branches on the Option returned by a lookup (`if let Some(x) = table.get(k)`): dict(bb, call, some, none)"""
+    out = []
+    for c in f.calls():
+        if c.name() in names and not f.blocks[c.bb].get('cleanup') and c.dest is not None:
+            for sw in enum_switches(f, 'core::option::Option'):
+                pl = sw['place']
+                if pl is not None and pl['l'] == c.dest['l']:
+                    out.append({'bb': sw['bb'], 'call': c, 'some': arm(sw, 1), 'none': arm(sw, 0)})
+    return out
+
+
 def _field_write_blocks(f, fields):
     """blocks of f that assign (or take a mutable borrow of) self.<field> for field in fields"""
     out = set()
@@ -398,6 +458,7 @@ def run(ctx):
     ctx.run_rule('C01.2d', 'T8', 'inheritance loops rejected before the base closure is computed; guarded search (SCCs all_base_interfaces, inheritance_search)', c05.r_inheritance, prog)
     ctx.run_rule('C01.2e', 'T2', 'self-containing aliases rejected before any recursive walk over type expressions (argument of SCCs type_string, typeref_visit, cycle_detector, dictionary_key)', c05.r_alias_through_anonymous, prog)
     ctx.run_rule('C01.1b', 'T6', 'white space skipper and classifier of the directive lexer agree (argument of the "should have been skipped" panic)', r_whitespace_agreement, prog)
+    ctx.run_rule('C01.2h', 'T8', 'the base closure of an interface is memoised: one expansion per interface, not one per inheritance path', r_base_closure_memoised, prog)
     ctx.run_rule('C01.2f', 'T10', 'fresh search state per root; candidates scan on every path (argument of SCCs all_base_interfaces, cycle_detector)', c05.r_search_state_and_identity, prog)
     ctx.run_rule('C01.2g', 'T8', 'the reference directory walk enters every directory once (argument of SCC directory_walk)', _c17.r_directory_walk_once, prog)
     ctx.run_rule('C01.5b', 'T4', 'lints of a file that failed to parse cannot lead to dangling members (argument of the WeakPtr::borrow ledger entry)', r_failed_parse_scopes, prog)
